@@ -246,6 +246,7 @@ func v6ConversationSet() []named {
 	}
 	var out []named
 	for _, s := range set {
+		// not guarded: the conversation alphabet must exist for the check to mean anything
 		out = append(out, named{s.n, append([]byte(nil), s.m.ToBytes()...)})
 	}
 	return out
